@@ -68,7 +68,27 @@ func scanSites(prog *ssa.Program, harnessFiles map[string]bool) []Site {
 					add("select", ins, "")
 				case *ssa.Send:
 					add("chan-send", ins, "")
+				case *ssa.Store:
+					// a write to a package-level variable outside package initialisation: process memory that outlives the call
+					if g, ok := v.Addr.(*ssa.Global); ok && fn.Name() != "init" && !strings.HasPrefix(fn.Name(), "init#") && fn.Synthetic == "" {
+						add("global-write", ins, g.String())
+					}
+				case *ssa.MapUpdate:
+					if u, ok := v.Map.(*ssa.UnOp); ok {
+						if g, ok := u.X.(*ssa.Global); ok && fn.Name() != "init" && !strings.HasPrefix(fn.Name(), "init#") {
+							add("global-write", ins, g.String()+" (map entry)")
+						}
+					}
 				case ssa.CallInstruction:
+					if callee := v.Common().StaticCallee(); callee != nil && callee.Pkg != nil && (callee.Pkg.Pkg.Path() == "sync/atomic" || callee.Pkg.Pkg.Path() == "sync") {
+						// process memory shared between calls (memoisation, counters, once-initialisation); plain locking is not state
+						switch callee.Name() {
+						case "Lock", "Unlock", "RLock", "RUnlock", "init":
+						default:
+							add("process-state", ins, callee.String())
+						}
+						continue
+					}
 					if callee := v.Common().StaticCallee(); callee != nil && callee.Pkg != nil && envPkgs[callee.Pkg.Pkg.Path()] {
 						name := callee.Pkg.Pkg.Path() + "." + callee.Name()
 						if callee.Signature.Recv() != nil {
